@@ -30,6 +30,8 @@ fn full_menu(prune: Vec<u64>, report_highest: Vec<u64>, all_positions: bool) -> 
         prune,
         report_highest,
         clock: true,
+        pairs: true,
+        balanced_default: false,
     }
 }
 
@@ -62,6 +64,14 @@ fn cfgs(quick: bool) -> Vec<(Cfg, usize)> {
     for (l, a) in limits {
         // A: heights 1,2 older than the window; 1..=4 stored, 5 and 6 arrive later
         v.push((a_cfg(l, a, true), 2));
+    }
+    // A with the default path keeping the blocks in progress level (two blocks can then finish
+    // in the same poll of the Daser task with a single pair delivery)
+    for (l, a) in [(2usize, 1usize), (3, 5)] {
+        let mut c = a_cfg(l, a, false);
+        c.name += "-balanced";
+        c.menu.balanced_default = true;
+        v.push((c, 2));
     }
     for (l, a) in limits {
         // B: a gap (3 missing, backfilled later), 4 already sampled, 6 arrives later
@@ -135,7 +145,7 @@ fn main() {
         &ctx,
         rep,
         Spec {
-            rule: "E3: real Daser over InMemoryStore + mocked P2p; (limit, allowance) in {(1,0),(1,1),(2,1),(3,5)} x stores {A: heights 1..=4 stored, 1-2 older than the window, heads 5,6 arriving; B: 1-2 and 4-5 stored (3 backfilled later), 4 pre-sampled, head 6 arriving; C: 1..=5 stored with preset pruner reports highest=4, backlog=512}; events: answer any outstanding request of any block in progress with a valid sample / RequestTimedOut, insert next head, backfill below the newest range, disconnect/reconnect, WantToPrune(h) and removal of granted heights, UpdateHighestPrunableHeight(v), UpdateNumberOfPrunableBlocks in {0,511,512}, advance clock 61 s / 5 h; every event sequence with <= 2 deviations (thorough adds E: 8 heights of widths 2/4 in two stored ranges, limits (2,1),(3,5), answers at oldest/newest position only, <= 2 deviations, and <= 3 deviations on D: 3 stored of 4 heights for (1,1),(2,1), and on C(1,1), B(1,1), A(2,1) with answers at oldest/newest position only) from the default (answer the oldest request successfully, then insert the next head) is executed; the oracle runs after every event. distinct = distinct choice sequences; states = distinct observation traces",
+            rule: "E3: real Daser over InMemoryStore + mocked P2p; (limit, allowance) in {(1,0),(1,1),(2,1),(3,5)} x stores {A: heights 1..=4 stored, 1-2 older than the window, heads 5,6 arriving; B: 1-2 and 4-5 stored (3 backfilled later), 4 pre-sampled, head 6 arriving; C: 1..=5 stored with preset pruner reports highest=4, backlog=512}; events: answer any outstanding request of any block in progress with a valid sample / RequestTimedOut, deliver two answers back-to-back without letting the Daser run in between (oldest outstanding requests of two different blocks, all ordered block pairs x {ok,timeout}^2, one choice), insert next head, backfill below the newest range, disconnect/reconnect, WantToPrune(h) and removal of granted heights, UpdateHighestPrunableHeight(v), UpdateNumberOfPrunableBlocks in {0,511,512}, advance clock 61 s / 5 h; every event sequence with <= 2 deviations (A also for (2,1),(3,5) with a default path that answers the block with the most outstanding requests first; thorough adds E: 8 heights of widths 2/4 in two stored ranges, limits (2,1),(3,5), answers at oldest/newest position only, <= 2 deviations, and <= 3 deviations on D: 3 stored of 4 heights for (1,1),(2,1), and on C(1,1), B(1,1), A(2,1) with answers at oldest/newest position only) from the default (answer the oldest request successfully, then insert the next head) is executed; the oracle runs after every event. distinct = distinct choice sequences; states = distinct observation traces",
             assumptions: &[
                 "wall clock Time::now() is not seamed: header times are 1 h (inside) / 6 h (outside) old against a 4 h sampling window, so the window edge itself is not exercised",
                 "'known stored height' is read as: contained in the last answer the Daser got from Store::get_stored_header_ranges and still stored (headers backfilled below the head do not wake wait_new_head)",
